@@ -1559,4 +1559,999 @@ theorem compose_ref : ∀ (kinds : List Kind) (xs ys : List V), (∀ k ∈ kinds
     rw [stage_ref k (hw k (List.mem_cons_self ..)) xs zs hzs]
     exact ih zs ys (fun k' hk' => hw k' (List.mem_cons_of_mem _ hk')) h
 
+/-! ## Part D: termination -/
+
+theorem pullFrom_succ (src : Src) (fuel : Nat) (st : StageSt) (rest : List StageSt) (pos : Nat) :
+    pullFrom src (fuel + 1) (st :: rest) pos =
+      match st.poll with
+      | (.emit v, st') => (.item v, st' :: rest, pos)
+      | (.done, st') => (.eof, st' :: rest, pos)
+      | (.fail e, st') => (.err e, st' :: rest, pos)
+      | (.pull, st') =>
+        match pullFrom src fuel rest pos with
+        | (.item v, rest', pos') => pullFrom src fuel (st'.feed (some v) :: rest') pos'
+        | (.eof, rest', pos') => pullFrom src fuel (st'.feed none :: rest') pos'
+        | (.err e, rest', pos') => (.err e, st' :: rest', pos')
+        | (.oof, rest', pos') => (.oof, st' :: rest', pos') := by
+  rw [pullFrom]
+  rcases st.poll with ⟨a, s'⟩
+  cases a with
+  | pull => simp only; rcases pullFrom src fuel rest pos with ⟨r, x, y⟩; cases r <;> rfl
+  | emit v => rfl
+  | done => rfl
+  | fail e => rfl
+
+theorem pullFrom_length (src : Src) : ∀ (fuel : Nat) (sts : List StageSt) (pos : Nat),
+    (pullFrom src fuel sts pos).2.1.length = sts.length := by
+  intro fuel
+  induction fuel with
+  | zero =>
+    intro sts pos
+    cases sts with
+    | nil => rw [pullFrom_nil]
+    | cons st rest => rw [pullFrom_zero]
+  | succ fuel ih =>
+    intro sts pos
+    cases sts with
+    | nil => rw [pullFrom_nil]
+    | cons st rest =>
+      rw [pullFrom_succ]
+      rcases st.poll with ⟨act, st'⟩
+      cases act with
+      | emit v => rfl
+      | done => rfl
+      | fail e => rfl
+      | pull =>
+        show (match pullFrom src fuel rest pos with
+          | (.item v, rest', pos') => pullFrom src fuel (st'.feed (some v) :: rest') pos'
+          | (.eof, rest', pos') => pullFrom src fuel (st'.feed none :: rest') pos'
+          | (.err e, rest', pos') => (.err e, st' :: rest', pos')
+          | (.oof, rest', pos') => (.oof, st' :: rest', pos')).2.1.length = (st :: rest).length
+        have h1 := ih rest pos
+        rcases hpf : pullFrom src fuel rest pos with ⟨r1, rest1, p1⟩
+        rw [hpf] at h1
+        have h1' : rest1.length = rest.length := h1
+        cases r1 with
+        | item u => show (pullFrom src fuel _ p1).2.1.length = _; rw [ih]; simp only [List.length_cons, h1']
+        | eof => show (pullFrom src fuel _ p1).2.1.length = _; rw [ih]; simp only [List.length_cons, h1']
+        | err e => show (st' :: rest1).length = _; simp only [List.length_cons, h1']
+        | oof => show (st' :: rest1).length = _; simp only [List.length_cons, h1']
+
+/-- more fuel never changes an answer -/
+theorem pullFrom_mono (src : Src) : ∀ (fuel : Nat) (sts : List StageSt) (pos : Nat),
+    (pullFrom src fuel sts pos).1 ≠ .oof → pullFrom src (fuel + 1) sts pos = pullFrom src fuel sts pos := by
+  intro fuel
+  induction fuel with
+  | zero =>
+    intro sts pos h
+    cases sts with
+    | nil => simp [pullFrom_nil]
+    | cons st rest => rw [pullFrom_zero] at h; exact absurd rfl h
+  | succ fuel ih =>
+    intro sts pos h
+    cases sts with
+    | nil => simp [pullFrom_nil]
+    | cons st rest =>
+      rw [pullFrom_succ] at h
+      rw [pullFrom_succ src (fuel + 1), pullFrom_succ src fuel]
+      rcases hp : st.poll with ⟨act, st'⟩
+      rw [hp] at h
+      cases act with
+      | emit v => rfl
+      | done => rfl
+      | fail e => rfl
+      | pull =>
+        simp only at h ⊢
+        rcases h1 : pullFrom src fuel rest pos with ⟨r1, rest1, p1⟩
+        rw [h1] at h
+        have hne : (pullFrom src fuel rest pos).1 ≠ .oof := by
+          rw [h1]; intro hc; simp only at hc; subst hc; exact h rfl
+        rw [ih rest pos hne, h1]
+        cases r1 with
+        | item u => simp only at h ⊢; exact ih _ _ h
+        | eof => simp only at h ⊢; exact ih _ _ h
+        | err e => rfl
+        | oof => exact absurd (by rw [h1]) hne
+
+theorem pullFrom_mono_le (src : Src) (sts : List StageSt) (pos : Nat) (f : Nat)
+    (h : (pullFrom src f sts pos).1 ≠ .oof) : ∀ f', f ≤ f' → pullFrom src f' sts pos = pullFrom src f sts pos := by
+  intro f' hle
+  induction f' with
+  | zero => have : f = 0 := by omega
+            subst this; rfl
+  | succ f' ih =>
+    rcases Nat.eq_or_lt_of_le hle with heq | hlt
+    · subst heq; rfl
+    · have := ih (by omega)
+      rw [pullFrom_mono src f' sts pos (by rw [this]; exact h), this]
+
+theorem isMore_eq {t : Term} (h : t.isMore = true) : t = .more := by
+  cases t <;> simp [Term.isMore] at h ⊢
+
+theorem answers_one_false {d : Tr} (h : d.answers 1 = false) : d = ⟨[], .more⟩ := by
+  obtain ⟨items, term⟩ := d
+  simp only [Tr.answers, Bool.or_eq_false_iff, decide_eq_false_iff_not, Bool.not_eq_false'] at h
+  have h1 : items = [] := by
+    cases items with
+    | nil => rfl
+    | cons x xs => simp at h
+  rw [h1, isMore_eq h.2]
+
+theorem feed_none_poll (s : StageSt) (he : s.err = none) : (s.feed none).poll.1 ≠ .pull := by
+  simp only [StageSt.feed, StageSt.poll]
+  split
+  · simp
+  · simp [he]
+
+/-- if the first `N` source items determine the chain's next answer, `next()` terminates
+    (and does not look beyond them) -/
+theorem pullFrom_terminates (src : Src) (N : Nat) : ∀ (n : Nat) (sts : List StageSt) (pos : Nat),
+    sts.length = n → pos ≤ N → (denoteF src sts pos N).answers 1 = true →
+    ∃ F, (pullFrom src F sts pos).1 ≠ .oof := by
+  intro n
+  induction n with
+  | zero =>
+    intro sts pos hl _ _
+    have : sts = [] := List.eq_nil_of_length_eq_zero hl
+    subst this
+    exact ⟨0, by rw [pullFrom_nil]; exact next_not_oof src pos⟩
+  | succ n ihn =>
+    -- inner induction on the number of items the chain below still delivers
+    have inner : ∀ (m : Nat) (st : StageSt) (rest : List StageSt) (pos : Nat), rest.length = n → pos ≤ N →
+        (denoteF src (st :: rest) pos N).answers 1 = true → (denoteF src rest pos N).items.length = m →
+        ∃ F, (pullFrom src F (st :: rest) pos).1 ≠ .oof := by
+      intro m
+      induction m with
+      | zero =>
+        intro st rest pos hl hpos hans hm
+        rcases hp : st.poll with ⟨act, st'⟩
+        cases act with
+        | emit v => exact ⟨1, by rw [pullFrom_succ, hp]; simp⟩
+        | done => exact ⟨1, by rw [pullFrom_succ, hp]; simp⟩
+        | fail e => exact ⟨1, by rw [pullFrom_succ, hp]; simp⟩
+        | pull =>
+          obtain ⟨rfl, ho, he, hs⟩ := poll_pull hp
+          have hD : (denoteF src rest pos N).answers 1 = true := by
+            rcases hb : (denoteF src rest pos N).answers 1 with _ | _
+            · have := answers_one_false hb
+              rw [denoteF_cons, this, drive_nil_more ho he hs] at hans
+              simp [Tr.answers, Term.isMore] at hans
+            · rfl
+          obtain ⟨f1, hf1⟩ := ihn rest pos hl hpos hD
+          have hsd := pullFrom_sound src f1 rest pos
+          rcases h1 : pullFrom src f1 rest pos with ⟨r1, rest1, p1⟩
+          rw [h1] at hsd hf1
+          obtain ⟨hle, hB, hA⟩ := hsd
+          have hp1 : p1 ≤ N := by
+            rcases Nat.lt_or_ge N p1 with hlt | hge
+            · have := hB N hpos hlt
+              rw [this] at hD; simp [Tr.answers, Term.isMore] at hD
+            · exact hge
+          cases r1 with
+          | item u =>
+            have := hA N hp1
+            simp only at this
+            rw [this] at hm; simp [Tr.cons] at hm
+          | eof =>
+            refine ⟨f1 + 1 + 1, ?_⟩
+            rw [pullFrom_succ, hp]
+            simp only
+            rw [pullFrom_mono_le src rest pos f1 (by rw [h1]; exact hf1) (f1 + 1) (by omega), h1]
+            simp only
+            have hnp := feed_none_poll st' he
+            rw [pullFrom_succ]
+            rcases hp2 : (st'.feed none).poll with ⟨a2, s2⟩
+            rw [hp2] at hnp
+            cases a2 <;> simp_all
+          | err e =>
+            refine ⟨f1 + 1, ?_⟩
+            rw [pullFrom_succ, hp]
+            simp only [h1]
+            simp
+          | oof => exact absurd rfl hf1
+      | succ m ihm =>
+        intro st rest pos hl hpos hans hm
+        rcases hp : st.poll with ⟨act, st'⟩
+        cases act with
+        | emit v => exact ⟨1, by rw [pullFrom_succ, hp]; simp⟩
+        | done => exact ⟨1, by rw [pullFrom_succ, hp]; simp⟩
+        | fail e => exact ⟨1, by rw [pullFrom_succ, hp]; simp⟩
+        | pull =>
+          obtain ⟨rfl, ho, he, hs⟩ := poll_pull hp
+          have hD : (denoteF src rest pos N).answers 1 = true := by
+            simp [Tr.answers, hm]
+          obtain ⟨f1, hf1⟩ := ihn rest pos hl hpos hD
+          have hsd := pullFrom_sound src f1 rest pos
+          have hlen1 := pullFrom_length src f1 rest pos
+          rcases h1 : pullFrom src f1 rest pos with ⟨r1, rest1, p1⟩
+          rw [h1] at hsd hf1 hlen1
+          obtain ⟨hle, hB, hA⟩ := hsd
+          have hp1 : p1 ≤ N := by
+            rcases Nat.lt_or_ge N p1 with hlt | hge
+            · have := hB N hpos hlt
+              rw [this] at hD; simp [Tr.answers, Term.isMore] at hD
+            · exact hge
+          cases r1 with
+          | item u =>
+            have hA' := hA N hp1
+            simp only at hA'
+            have key : denoteF src (st'.feed (some u) :: rest1) p1 N = denoteF src (st' :: rest) pos N := by
+              simp only [denoteF_cons, hA', Tr.cons]
+              exact (drive_feed_some ho he hs u _ _).symm
+            have hm' : (denoteF src rest1 p1 N).items.length = m := by
+              rw [hA'] at hm; simpa [Tr.cons] using hm
+            obtain ⟨f2, hf2⟩ := ihm (st'.feed (some u)) rest1 p1 (by simpa [hl] using hlen1) hp1
+              (by rw [key]; exact hans) hm'
+            refine ⟨max f1 f2 + 1, ?_⟩
+            rw [pullFrom_succ, hp]
+            simp only
+            rw [pullFrom_mono_le src rest pos f1 (by rw [h1]; exact hf1) (max f1 f2) (Nat.le_max_left ..), h1]
+            simp only
+            rw [pullFrom_mono_le src _ p1 f2 hf2 (max f1 f2) (Nat.le_max_right ..)]
+            exact hf2
+          | eof =>
+            refine ⟨f1 + 1 + 1, ?_⟩
+            rw [pullFrom_succ, hp]
+            simp only
+            rw [pullFrom_mono_le src rest pos f1 (by rw [h1]; exact hf1) (f1 + 1) (by omega), h1]
+            simp only
+            have hnp := feed_none_poll st' he
+            rw [pullFrom_succ]
+            rcases hp2 : (st'.feed none).poll with ⟨a2, s2⟩
+            rw [hp2] at hnp
+            cases a2 <;> simp_all
+          | err e =>
+            refine ⟨f1 + 1, ?_⟩
+            rw [pullFrom_succ, hp]
+            simp only [h1]
+            simp
+          | oof => exact absurd rfl hf1
+    intro sts pos hl hpos hans
+    cases sts with
+    | nil => simp at hl
+    | cons st rest =>
+      exact inner _ st rest pos (by simpa using hl) hpos hans rfl
+
+/-- from some fuel on, the fuelled computation `g` returns the fixed result `r` -/
+def StableAt {α : Type} (g : Nat → α) (r : α) : Prop := ∃ F, ∀ fuel, F ≤ fuel → g fuel = r
+
+theorem answers_succ_one {d : Tr} {k : Nat} (h : d.answers (k + 1) = true) : d.answers 1 = true := by
+  simp only [Tr.answers, Bool.or_eq_true, decide_eq_true_eq] at h ⊢
+  rcases h with h | h
+  · left; omega
+  · right; exact h
+
+/-- packaged: a terminating `next()` with its (fuel-independent) result -/
+theorem pullFrom_stable (src : Src) (N : Nat) (sts : List StageSt) (pos : Nat) (hpos : pos ≤ N)
+    (hans : (denoteF src sts pos N).answers 1 = true) :
+    ∃ r sts1 p1, r ≠ .oof ∧ p1 ≤ N ∧ StableAt (fun fuel => pullFrom src fuel sts pos) (r, sts1, p1) ∧
+      StepOK src sts pos r sts1 p1 := by
+  obtain ⟨F, hF⟩ := pullFrom_terminates src N sts.length sts pos rfl hpos hans
+  have hsd := pullFrom_sound src F sts pos
+  rcases h1 : pullFrom src F sts pos with ⟨r, sts1, p1⟩
+  rw [h1] at hsd hF
+  refine ⟨r, sts1, p1, hF, ?_, ⟨F, fun fuel hf => by dsimp only; rw [pullFrom_mono_le src sts pos F (by rw [h1]; exact hF) fuel hf, h1]⟩, hsd⟩
+  obtain ⟨_, hB, _⟩ := hsd
+  rcases Nat.lt_or_ge N p1 with hlt | hge
+  · have := hB N hpos hlt
+    rw [this] at hans; simp [Tr.answers, Term.isMore] at hans
+  · exact hge
+
+theorem takeK_terminates (src : Src) (N : Nat) : ∀ (k : Nat) (sts : List StageSt) (pos : Nat) (acc : List V),
+    pos ≤ N → (denoteF src sts pos N).answers k = true →
+    ∃ out, out.1.fin ≠ .oof ∧ StableAt (fun fuel => takeK src fuel k sts pos acc) out := by
+  intro k
+  induction k with
+  | zero => intro sts pos acc _ _; exact ⟨(⟨acc, .gotK, pos⟩, sts), by simp, 0, fun fuel _ => rfl⟩
+  | succ k ih =>
+    intro sts pos acc hpos hans
+    obtain ⟨r, sts1, p1, hr, hp1, ⟨F1, hF1⟩, hle, hB, hA⟩ := pullFrom_stable src N sts pos hpos (answers_succ_one hans)
+    dsimp only at hF1
+    cases r with
+    | item v =>
+      have hA' := hA N hp1
+      simp only at hA'
+      rw [hA', answers_cons] at hans
+      obtain ⟨out, hout, F2, hF2⟩ := ih sts1 p1 (acc ++ [v]) hp1 hans
+      dsimp only at hF2
+      refine ⟨out, hout, max F1 F2, fun fuel hf => ?_⟩
+      simp only [takeK]
+      rw [hF1 fuel (Nat.le_trans (Nat.le_max_left ..) hf)]
+      exact hF2 fuel (Nat.le_trans (Nat.le_max_right ..) hf)
+    | eof =>
+      refine ⟨(⟨acc, .exhausted, p1⟩, sts1), by simp, F1, fun fuel hf => ?_⟩
+      simp only [takeK]; rw [hF1 fuel hf]
+    | err e =>
+      refine ⟨(⟨acc, .raised e, p1⟩, sts1), by simp, F1, fun fuel hf => ?_⟩
+      simp only [takeK]; rw [hF1 fuel hf]
+    | oof => exact absurd rfl hr
+
+/-! ### priming a window -/
+
+/-- feeding `n` items keeps the stage waiting for input -/
+def PrimeIdle : StageSt → Nat → Prop
+  | _, 0 => True
+  | st, n + 1 => st.poll = (.pull, st) ∧ ∀ v, PrimeIdle (st.feed (some v)) n
+
+theorem primeIdle_windowed (size : Nat) : ∀ (n : Nat) (st : StageSt), st.out = [] → st.err = none →
+    st.stopped = false → st.core.kind = .windowed size → st.core.buf.length + n < size → PrimeIdle st n := by
+  intro n
+  induction n with
+  | zero => intro _ _ _ _ _ _; trivial
+  | succ n ih =>
+    intro st ho he hs hk hb
+    refine ⟨by simp [StageSt.poll, ho, he, hs], fun v => ?_⟩
+    have hnot : ¬ (size ≤ st.core.buf.length + 1) := by omega
+    apply ih
+    · simp [StageSt.feed, Core.push, hk, hnot]
+    · simp [StageSt.feed, Core.push, hk, hnot]
+    · simp [StageSt.feed, Core.push, hk, hnot]
+    · simp [StageSt.feed, Core.push, hk, hnot]
+    · simp [StageSt.feed, Core.push, hk, hnot]; omega
+
+theorem primeIdle_init (k : Kind) (hw : k.wf = true) : PrimeIdle (StageSt.init k) k.primeCount := by
+  cases k with
+  | windowed size =>
+    simp only [Kind.wf, decide_eq_true_eq] at hw
+    apply primeIdle_windowed size
+    · rfl
+    · rfl
+    · simp [StageSt.init, Kind.initStopped]
+    · rfl
+    · simp [StageSt.init, Core.init, Kind.primeCount]; omega
+  | _ => trivial
+
+def Built.isOof : Built → Bool
+  | .oof => true
+  | _ => false
+
+theorem prime_terminates (src : Src) (N : Nat) : ∀ (n : Nat) (st : StageSt) (below : List StageSt) (pos : Nat),
+    PrimeIdle st n → pos ≤ N → (denoteF src below pos N).answers n = true →
+    ∃ b : Built, b.isOof = false ∧ StableAt (fun fuel => prime src fuel n st below pos) b := by
+  intro n
+  induction n with
+  | zero => intro st below pos _ _ _; exact ⟨.ok (st :: below) pos, rfl, 0, fun fuel _ => by simp [prime]⟩
+  | succ n ih =>
+    intro st below pos hidle hpos hans
+    obtain ⟨hpoll, hnext⟩ := hidle
+    obtain ⟨r, below1, p1, hr, hp1, ⟨F1, hF1⟩, hle, hB, hA⟩ :=
+      pullFrom_stable src N below pos hpos (answers_succ_one hans)
+    dsimp only at hF1
+    cases r with
+    | item v =>
+      have hA' := hA N hp1
+      simp only at hA'
+      rw [hA', answers_cons] at hans
+      obtain ⟨b, hb, F2, hF2⟩ := ih (st.feed (some v)) below1 p1 (hnext v) hp1 hans
+      dsimp only at hF2
+      refine ⟨b, hb, max F1 F2, fun fuel hf => ?_⟩
+      simp only [prime, hpoll]
+      rw [hF1 fuel (Nat.le_trans (Nat.le_max_left ..) hf)]
+      exact hF2 fuel (Nat.le_trans (Nat.le_max_right ..) hf)
+    | eof =>
+      refine ⟨.ok (st.feed none :: below1) p1, rfl, F1, fun fuel hf => ?_⟩
+      simp only [prime, hpoll]; rw [hF1 fuel hf]
+    | err e =>
+      refine ⟨.err e p1, rfl, F1, fun fuel hf => ?_⟩
+      simp only [prime, hpoll]; rw [hF1 fuel hf]
+    | oof => exact absurd rfl hr
+
+/-- every window of the chain gets its `size - 1` items (or the end) from the first `N` source items -/
+def PrimeAnswered (src : Src) (N : Nat) (before ks : List Kind) : Prop :=
+  ∀ b k a, ks = b ++ k :: a → (det (before ++ b) src N).answers k.primeCount = true
+
+theorem construct_terminates (src : Src) (N : Nat) : ∀ (ks before : List Kind) (acc : List StageSt) (pos : Nat),
+    (∀ k ∈ ks, k.wf = true) → (∀ M, pos ≤ M → denoteF src acc pos M = det before src M) → pos ≤ N →
+    PrimeAnswered src N before ks →
+    ∃ b : Built, b.isOof = false ∧ StableAt (fun fuel => construct src fuel ks acc pos) b ∧
+      (∀ sts' pos', b = .ok sts' pos' → pos' ≤ N) := by
+  intro ks
+  induction ks with
+  | nil =>
+    intro before acc pos _ _ hpos _
+    exact ⟨.ok acc pos, rfl, ⟨0, fun fuel _ => by simp [construct]⟩, fun _ _ h => by cases h; exact hpos⟩
+  | cons k ks ih =>
+    intro before acc pos hw hinv hpos hpa
+    have hans : (denoteF src acc pos N).answers k.primeCount = true := by
+      rw [hinv N hpos]; simpa using hpa [] k ks rfl
+    obtain ⟨b, hb, F1, hF1⟩ := prime_terminates src N k.primeCount (StageSt.init k) acc pos
+      (primeIdle_init k (hw k (List.mem_cons_self ..))) hpos hans
+    dsimp only at hF1
+    have hps := prime_sound src F1 k.primeCount (StageSt.init k) acc pos
+    rw [hF1 F1 (Nat.le_refl _)] at hps
+    cases b with
+    | ok acc' p1 =>
+      obtain ⟨hle, hB, hA⟩ := hps
+      have hp1 : p1 ≤ N := by
+        rcases Nat.lt_or_ge N p1 with hlt | hge
+        · have := hB N hpos hlt; rw [this] at hans; simp at hans
+        · exact hge
+      have hinv' : ∀ M, p1 ≤ M → denoteF src acc' p1 M = det (before ++ [k]) src M := by
+        intro M hM
+        rw [(hA M hM).1, denoteF_init, hinv M (Nat.le_trans hle hM)]
+        simp [det, pipeTr_append, pipeTr]
+      obtain ⟨b2, hb2, ⟨F2, hF2⟩, hpos2⟩ := ih (before ++ [k]) acc' p1
+        (fun k' hk' => hw k' (List.mem_cons_of_mem _ hk')) hinv' hp1
+        (fun b' k' a' h => by
+          have := hpa (k :: b') k' a' (by simp [h])
+          simpa [List.append_assoc] using this)
+      dsimp only at hF2
+      refine ⟨b2, hb2, ⟨max F1 F2, fun fuel hf => ?_⟩, hpos2⟩
+      simp only [construct]
+      rw [hF1 fuel (Nat.le_trans (Nat.le_max_left ..) hf)]
+      exact hF2 fuel (Nat.le_trans (Nat.le_max_right ..) hf)
+    | err e p1 =>
+      refine ⟨.err e p1, rfl, ⟨F1, fun fuel hf => ?_⟩, fun _ _ h => by cases h⟩
+      simp only [construct]
+      rw [hF1 fuel hf]
+    | oof => simp [Built.isOof] at hb
+
+theorem primeAnswered_nil_of_all (src : Src) (N : Nat) (kinds : List Kind)
+    (h : ∀ b, (det b src N).term.isMore = false) : PrimeAnswered src N [] kinds := by
+  intro b k a _
+  simp [Tr.answers, h]
+
+theorem runTake_terminates (src : Src) (N : Nat) (kinds : List Kind) (k : Nat)
+    (hw : ∀ k ∈ kinds, k.wf = true) (hpa : PrimeAnswered src N [] kinds)
+    (hans : (det kinds src N).answers k = true) :
+    ∃ F, ∀ fuel, F ≤ fuel → (runTake kinds src fuel k).fin ≠ .oof := by
+  obtain ⟨b, hb, ⟨F1, hF1⟩, hposN⟩ := construct_terminates src N kinds [] [] 0 hw
+    (fun M _ => by rw [denoteF_nil_zero]; rfl) (Nat.zero_le _) hpa
+  dsimp only at hF1
+  have hcs := construct_sound src F1 0 kinds [] [] 0 0 (fun M _ => by rw [denoteF_nil_zero]; rfl)
+  rw [hF1 F1 (Nat.le_refl _)] at hcs
+  cases b with
+  | ok sts pos =>
+    obtain ⟨_, _, hden, _⟩ := hcs
+    have hp := hposN sts pos rfl
+    have hans' : (denoteF src sts pos N).answers k = true := by rw [hden N hp]; simpa using hans
+    obtain ⟨out, hout, F2, hF2⟩ := takeK_terminates src N k sts pos [] hp hans'
+    dsimp only at hF2
+    refine ⟨max F1 F2, fun fuel hf => ?_⟩
+    unfold runTake
+    rw [hF1 fuel (Nat.le_trans (Nat.le_max_left ..) hf)]
+    simp only
+    rw [hF2 fuel (Nat.le_trans (Nat.le_max_right ..) hf)]
+    exact hout
+  | err e pos =>
+    refine ⟨F1, fun fuel hf => ?_⟩
+    unfold runTake
+    rw [hF1 fuel hf]
+    simp
+  | oof => simp [Built.isOof] at hb
+
+/-- on a finite source every prefix trace at the full length is terminated -/
+theorem det_fin_not_more (kinds : List Kind) (xs : List V) (tail : Option Err) :
+    (det kinds (.fin xs tail) xs.length).term.isMore = false := by
+  rcases h : (det kinds (.fin xs tail) xs.length).term.isMore with _ | _
+  · rfl
+  · have := pipeTr_isMore kinds _ h
+    simp only [Src.pfx, ge_iff_le, Nat.le_refl, ↓reduceIte] at this
+    cases tail <;> simp [Term.isMore] at this
+
+theorem runTake_terminates_fin (kinds : List Kind) (xs : List V) (tail : Option Err) (k : Nat)
+    (hw : ∀ k ∈ kinds, k.wf = true) :
+    ∃ F, ∀ fuel, F ≤ fuel → (runTake kinds (.fin xs tail) fuel k).fin ≠ .oof :=
+  runTake_terminates (.fin xs tail) xs.length kinds k hw
+    (primeAnswered_nil_of_all _ _ kinds (fun b => det_fin_not_more b xs tail))
+    (by simp [Tr.answers, det_fin_not_more])
+
+/-! ### `list(it)` -/
+
+theorem drain_sound (src : Src) (fuel : Nat) : ∀ (n : Nat) (sts : List StageSt) (pos : Nat) (acc : List V),
+    pos ≤ (drain src fuel n sts pos acc).pulls ∧
+    (∀ m, pos ≤ m → m < (drain src fuel n sts pos acc).pulls → (denoteF src sts pos m).term.isMore = true) ∧
+    ∃ ys, (drain src fuel n sts pos acc).items = acc ++ ys ∧
+      ∀ N, (drain src fuel n sts pos acc).pulls ≤ N →
+        match (drain src fuel n sts pos acc).fin with
+        | .exhausted => denoteF src sts pos N = ⟨ys, .eof⟩
+        | .raised e => denoteF src sts pos N = ⟨ys, .err e⟩
+        | .gotK => False
+        | .oof => True := by
+  intro n
+  induction n with
+  | zero =>
+    intro sts pos acc
+    simp only [drain]
+    exact ⟨Nat.le_refl _, fun m hm hm' => by omega, [], by simp, fun _ _ => trivial⟩
+  | succ n ih =>
+    intro sts pos acc
+    simp only [drain]
+    have hs := pullFrom_sound src fuel sts pos
+    rcases h1 : pullFrom src fuel sts pos with ⟨r, sts1, p1⟩
+    rw [h1] at hs
+    obtain ⟨hle, hB, hA⟩ := hs
+    cases r with
+    | item v =>
+      simp only
+      obtain ⟨hle2, hB2, ys, hys, hA2⟩ := ih sts1 p1 (acc ++ [v])
+      refine ⟨Nat.le_trans hle hle2, ?_, v :: ys, by simp [hys], ?_⟩
+      · intro m hm hm'
+        rcases Nat.lt_or_ge m p1 with hlt | hge
+        · rw [hB m hm hlt]; rfl
+        · have := hA m hge
+          simp only at this
+          rw [this]
+          exact hB2 m hge hm'
+      · intro N hN
+        have h0 := hA N (Nat.le_trans hle2 hN)
+        simp only at h0
+        have h2 := hA2 N hN
+        revert h2
+        cases (drain src fuel n sts1 p1 (acc ++ [v])).fin with
+        | gotK => intro h2; exact h2
+        | exhausted => intro h2; rw [h0, h2]; rfl
+        | raised e => intro h2; rw [h0, h2]; rfl
+        | oof => intro _; trivial
+    | eof =>
+      simp only
+      exact ⟨hle, fun m hm hm' => by rw [hB m hm hm']; rfl, [], by simp, fun N hN => hA N hN⟩
+    | err e =>
+      simp only
+      exact ⟨hle, fun m hm hm' => by rw [hB m hm hm']; rfl, [], by simp, fun N hN => hA N hN⟩
+    | oof =>
+      simp only
+      exact ⟨hle, fun m hm hm' => by rw [hB m hm hm']; rfl, [], by simp, fun N hN => trivial⟩
+
+theorem not_more_answers {d : Tr} (h : d.term.isMore = false) (k : Nat) : d.answers k = true := by
+  simp [Tr.answers, h]
+
+theorem drain_terminates (src : Src) (N : Nat) : ∀ (L : Nat) (sts : List StageSt) (pos : Nat) (acc : List V),
+    pos ≤ N → (denoteF src sts pos N).term.isMore = false → (denoteF src sts pos N).items.length = L →
+    ∃ out : RunOut, out.fin ≠ .oof ∧ ∃ F, ∀ fuel n, F ≤ fuel → L + 1 ≤ n → drain src fuel n sts pos acc = out := by
+  intro L
+  induction L with
+  | zero =>
+    intro sts pos acc hpos hterm hlen
+    obtain ⟨r, sts1, p1, hr, hp1, ⟨F1, hF1⟩, hle, hB, hA⟩ :=
+      pullFrom_stable src N sts pos hpos (not_more_answers hterm 1)
+    dsimp only at hF1
+    cases r with
+    | item v =>
+      have := hA N hp1
+      simp only at this
+      rw [this] at hlen; simp [Tr.cons] at hlen
+    | eof =>
+      refine ⟨⟨acc, .exhausted, p1⟩, by simp, F1, fun fuel n hf hn => ?_⟩
+      obtain ⟨n', rfl⟩ : ∃ n', n = n' + 1 := ⟨n - 1, by omega⟩
+      simp only [drain]; rw [hF1 fuel hf]
+    | err e =>
+      refine ⟨⟨acc, .raised e, p1⟩, by simp, F1, fun fuel n hf hn => ?_⟩
+      obtain ⟨n', rfl⟩ : ∃ n', n = n' + 1 := ⟨n - 1, by omega⟩
+      simp only [drain]; rw [hF1 fuel hf]
+    | oof => exact absurd rfl hr
+  | succ L ih =>
+    intro sts pos acc hpos hterm hlen
+    obtain ⟨r, sts1, p1, hr, hp1, ⟨F1, hF1⟩, hle, hB, hA⟩ :=
+      pullFrom_stable src N sts pos hpos (not_more_answers hterm 1)
+    dsimp only at hF1
+    cases r with
+    | item v =>
+      have hA' := hA N hp1
+      simp only at hA'
+      have hterm' : (denoteF src sts1 p1 N).term.isMore = false := by rw [hA'] at hterm; exact hterm
+      have hlen' : (denoteF src sts1 p1 N).items.length = L := by rw [hA'] at hlen; simpa [Tr.cons] using hlen
+      obtain ⟨out, hout, F2, hF2⟩ := ih sts1 p1 (acc ++ [v]) hp1 hterm' hlen'
+      refine ⟨out, hout, max F1 F2, fun fuel n hf hn => ?_⟩
+      obtain ⟨n', rfl⟩ : ∃ n', n = n' + 1 := ⟨n - 1, by omega⟩
+      simp only [drain]
+      rw [hF1 fuel (Nat.le_trans (Nat.le_max_left ..) hf)]
+      exact hF2 fuel n' (Nat.le_trans (Nat.le_max_right ..) hf) (by omega)
+    | eof =>
+      refine ⟨⟨acc, .exhausted, p1⟩, by simp, F1, fun fuel n hf hn => ?_⟩
+      obtain ⟨n', rfl⟩ : ∃ n', n = n' + 1 := ⟨n - 1, by omega⟩
+      simp only [drain]; rw [hF1 fuel hf]
+    | err e =>
+      refine ⟨⟨acc, .raised e, p1⟩, by simp, F1, fun fuel n hf hn => ?_⟩
+      obtain ⟨n', rfl⟩ : ∃ n', n = n' + 1 := ⟨n - 1, by omega⟩
+      simp only [drain]; rw [hF1 fuel hf]
+    | oof => exact absurd rfl hr
+
+/-- what an `all()` run establishes -/
+structure AllSpec (kinds : List Kind) (src : Src) (out : RunOut) : Prop where
+  /-- every source position pulled lies in a prefix that leaves the end of the stream open,
+      or a window was being primed -/
+  needed : ∀ m, m < out.pulls → PrimeNeeded src [] kinds m ∨ (det kinds src m).term.isMore = true
+  result : (∀ N, out.pulls ≤ N → match out.fin with
+      | .exhausted => det kinds src N = ⟨out.items, .eof⟩
+      | .raised e => det kinds src N = ⟨out.items, .err e⟩
+      | _ => False) ∨
+    (∃ e, out.fin = .raised e ∧ ∀ N, out.pulls ≤ N → PrimeRaised src [] kinds e N)
+  bounded : ∀ bound, SrcBound src bound → out.pulls ≤ bound ∧
+    ((∃ e, out.fin = .raised e ∧ PrimeRaised src [] kinds e bound ∧ out.pulls ≤ primeNeed kinds src bound) ∨
+      ((match out.fin with
+        | .exhausted => det kinds src bound = ⟨out.items, .eof⟩
+        | .raised e => det kinds src bound = ⟨out.items, .err e⟩
+        | _ => False) ∧ out.pulls ≤ needEndFrom kinds src bound (primeNeed kinds src bound)))
+
+theorem runAll_spec (src : Src) (fuel : Nat) (kinds : List Kind)
+    (hfin : (runAll kinds src fuel).fin ≠ .oof) : AllSpec kinds src (runAll kinds src fuel) := by
+  have hc : ∀ bound, _ := fun bound => construct_sound src fuel bound kinds [] [] 0 0
+    (fun N _ => by rw [denoteF_nil_zero]; rfl)
+  unfold runAll at hfin ⊢
+  revert hc hfin
+  cases construct src fuel kinds [] 0 with
+  | ok sts pos =>
+    intro hfin hc
+    simp only at hfin hc ⊢
+    obtain ⟨_, hprime, hden, _⟩ := hc 0
+    simp only [List.nil_append] at hden
+    obtain ⟨hle, hB, ys, hys, hA⟩ := drain_sound src fuel fuel sts pos []
+    simp only [List.nil_append] at hys
+    have hBabs : ∀ m, pos ≤ m → m < (drain src fuel fuel sts pos []).pulls →
+        (det kinds src m).term.isMore = true := fun m hm hm' => by rw [← hden m hm]; exact hB m hm hm'
+    have htrace : ∀ N, (drain src fuel fuel sts pos []).pulls ≤ N →
+        match (drain src fuel fuel sts pos []).fin with
+        | .exhausted => det kinds src N = ⟨(drain src fuel fuel sts pos []).items, .eof⟩
+        | .raised e => det kinds src N = ⟨(drain src fuel fuel sts pos []).items, .err e⟩
+        | _ => False := by
+      intro N hN
+      have h := hA N hN
+      rw [hden N (Nat.le_trans hle hN)] at h
+      revert h hfin
+      rw [hys]
+      cases (drain src fuel fuel sts pos []).fin with
+      | gotK => intro _ h; exact h
+      | exhausted => intro _ h; exact h
+      | raised e => intro _ h; exact h
+      | oof => intro h; exact absurd rfl h
+    refine ⟨?_, Or.inl htrace, ?_⟩
+    · intro m hm
+      rcases Nat.lt_or_ge m pos with hlt | hge
+      · exact Or.inl (hprime m (Nat.zero_le _) hlt)
+      · exact Or.inr (hBabs m hge hm)
+    · intro bound hb
+      obtain ⟨_, _, _, hbd⟩ := hc bound
+      obtain ⟨hpb, hscan⟩ := hbd hb (Nat.le_refl _) (Nat.zero_le _)
+      have hmb : ∀ m, pos ≤ m → m < (drain src fuel fuel sts pos []).pulls → m < bound :=
+        fun m hm hm' => hb _ (pipeTr_isMore kinds _ (hBabs m hm hm'))
+      have hpl : (drain src fuel fuel sts pos []).pulls ≤ bound := by
+        rcases Nat.eq_or_lt_of_le hle with heq | hlt
+        · omega
+        · have := hmb ((drain src fuel fuel sts pos []).pulls - 1) (by omega) (by omega); omega
+      refine ⟨hpl, Or.inr ⟨htrace bound hpl, ?_⟩⟩
+      exact pulls_le_need _ bound _ pos _ hscan hmb (fun m hm hm' => by simp [hBabs m hm hm']) hle
+  | err e pos =>
+    intro _ hc
+    simp only at hc ⊢
+    obtain ⟨_, hprime, hraised, _⟩ := hc 0
+    refine ⟨fun m hm => Or.inl (hprime m (Nat.zero_le _) hm), Or.inr ⟨e, rfl, hraised⟩, ?_⟩
+    intro bound hb
+    obtain ⟨_, _, hr, hbd⟩ := hc bound
+    obtain ⟨hpb, hscan⟩ := hbd hb (Nat.le_refl _) (Nat.zero_le _)
+    exact ⟨hpb, Or.inl ⟨e, rfl, hr bound hpb, hscan⟩⟩
+  | oof => intro hfin _; exact absurd rfl hfin
+
+theorem checkAll_of_spec (kinds : List Kind) (xs : List V) (tail : Option Err) (out : RunOut)
+    (h : AllSpec kinds (.fin xs tail) out) :
+    checkAll kinds (.fin xs tail) ⟨out.items, out.fin, out.pulls⟩ = true := by
+  unfold checkAll
+  simp only [srcLen]
+  obtain ⟨hpl, hres⟩ := h.bounded xs.length (srcBound_fin xs tail)
+  rcases hres with ⟨e, hfe, hraised, hpn⟩ | ⟨htr, hneed⟩
+  · apply Bool.or_eq_true_iff.mpr; right
+    simp [hfe, hpn, primeRaised_mem hraised]
+  · apply Bool.or_eq_true_iff.mpr; left
+    revert htr
+    cases out.fin with
+    | gotK => intro h; exact absurd h id
+    | exhausted => intro hd; simp [hd, finOfTerm, hneed]
+    | raised e => intro hd; simp [hd, finOfTerm, hneed]
+    | oof => intro h; exact absurd h id
+
+theorem runAll_terminates (src : Src) (N : Nat) (kinds : List Kind)
+    (hw : ∀ k ∈ kinds, k.wf = true) (hpa : PrimeAnswered src N [] kinds)
+    (hterm : (det kinds src N).term.isMore = false) :
+    ∃ F, ∀ fuel, F ≤ fuel → (runAll kinds src fuel).fin ≠ .oof := by
+  obtain ⟨b, hb, ⟨F1, hF1⟩, hposN⟩ := construct_terminates src N kinds [] [] 0 hw
+    (fun M _ => by rw [denoteF_nil_zero]; rfl) (Nat.zero_le _) hpa
+  dsimp only at hF1
+  have hcs := construct_sound src F1 0 kinds [] [] 0 0 (fun M _ => by rw [denoteF_nil_zero]; rfl)
+  rw [hF1 F1 (Nat.le_refl _)] at hcs
+  cases b with
+  | ok sts pos =>
+    obtain ⟨_, _, hden, _⟩ := hcs
+    have hp := hposN sts pos rfl
+    have hterm' : (denoteF src sts pos N).term.isMore = false := by rw [hden N hp]; simpa using hterm
+    obtain ⟨out, hout, F2, hF2⟩ := drain_terminates src N _ sts pos [] hp hterm' rfl
+    refine ⟨max (max F1 F2) ((denoteF src sts pos N).items.length + 1), fun fuel hf => ?_⟩
+    unfold runAll
+    rw [hF1 fuel (by omega)]
+    simp only
+    rw [hF2 fuel fuel (by omega) (by omega)]
+    exact hout
+  | err e pos =>
+    refine ⟨F1, fun fuel hf => ?_⟩
+    unfold runAll
+    rw [hF1 fuel hf]
+    simp
+  | oof => simp [Built.isOof] at hb
+
+/-! ### `first(key, default)` -/
+
+theorem firstOf_sound (src : Src) (fuel : Nat) (key : Fn) : ∀ (n : Nat) (sts : List StageSt) (pos i : Nat),
+    pos ≤ (firstOf src fuel key n sts pos).2 ∧
+    ∃ c, (∀ m, pos ≤ m → m < (firstOf src fuel key n sts pos).2 → (denoteF src sts pos m).answers c = false) ∧
+      ∀ N, (firstOf src fuel key n sts pos).2 ≤ N →
+        match (firstOf src fuel key n sts pos).1 with
+        | .found v => firstRef key (denoteF src sts pos N).items (denoteF src sts pos N).term i = .found v (i + c)
+        | .raised e =>
+            firstRef key (denoteF src sts pos N).items (denoteF src sts pos N).term i = .keyRaised e (i + c) ∨
+            firstRef key (denoteF src sts pos N).items (denoteF src sts pos N).term i = .atEnd (.err e)
+        | .default => firstRef key (denoteF src sts pos N).items (denoteF src sts pos N).term i = .atEnd .eof
+        | .oof => True := by
+  intro n
+  induction n with
+  | zero =>
+    intro sts pos i
+    simp only [firstOf]
+    exact ⟨Nat.le_refl _, 0, fun m hm hm' => by omega, fun _ _ => trivial⟩
+  | succ n ih =>
+    intro sts pos i
+    simp only [firstOf]
+    have hs := pullFrom_sound src fuel sts pos
+    rcases h1 : pullFrom src fuel sts pos with ⟨r, sts1, p1⟩
+    rw [h1] at hs
+    obtain ⟨hle, hB, hA⟩ := hs
+    cases r with
+    | item v =>
+      simp only
+      cases hk : key v with
+      | error e =>
+        simp only
+        refine ⟨hle, 1, fun m hm hm' => by rw [hB m hm hm']; simp, fun N hN => ?_⟩
+        have := hA N hN
+        simp only at this
+        left
+        rw [this]; simp [Tr.cons, firstRef, hk]
+      | ok y =>
+        simp only
+        by_cases ht : y.truthy = true
+        · simp only [ht, ↓reduceIte]
+          refine ⟨hle, 1, fun m hm hm' => by rw [hB m hm hm']; simp, fun N hN => ?_⟩
+          have := hA N hN
+          simp only at this
+          rw [this]; simp [Tr.cons, firstRef, hk, ht]
+        · simp only [ht, Bool.false_eq_true, ↓reduceIte]
+          obtain ⟨hle2, c, hB2, hA2⟩ := ih sts1 p1 (i + 1)
+          refine ⟨Nat.le_trans hle hle2, c + 1, ?_, ?_⟩
+          · intro m hm hm'
+            rcases Nat.lt_or_ge m p1 with hlt | hge
+            · rw [hB m hm hlt]; simp
+            · have := hA m hge
+              simp only at this
+              rw [this, answers_cons]
+              exact hB2 m hge hm'
+          · intro N hN
+            have h0 := hA N (Nat.le_trans hle2 hN)
+            simp only at h0
+            have h2 := hA2 N hN
+            have hstep : firstRef key (denoteF src sts pos N).items (denoteF src sts pos N).term i =
+                firstRef key (denoteF src sts1 p1 N).items (denoteF src sts1 p1 N).term (i + 1) := by
+              rw [h0]; simp [Tr.cons, firstRef, hk, ht]
+            rw [hstep]
+            have harith : i + (c + 1) = i + 1 + c := by omega
+            rw [harith]
+            exact h2
+    | eof =>
+      simp only
+      refine ⟨hle, 1, fun m hm hm' => by rw [hB m hm hm']; simp, fun N hN => ?_⟩
+      have := hA N hN
+      simp only at this
+      rw [this]; simp [firstRef]
+    | err e =>
+      simp only
+      refine ⟨hle, 1, fun m hm hm' => by rw [hB m hm hm']; simp, fun N hN => ?_⟩
+      have := hA N hN
+      simp only at this
+      right
+      rw [this]; simp [firstRef]
+    | oof =>
+      simp only
+      exact ⟨hle, 1, fun m hm hm' => by rw [hB m hm hm']; simp, fun N hN => trivial⟩
+
+theorem firstOf_terminates (src : Src) (N : Nat) (key : Fn) : ∀ (L : Nat) (sts : List StageSt) (pos i : Nat),
+    pos ≤ N → (denoteF src sts pos N).items.length = L →
+    firstRef key (denoteF src sts pos N).items (denoteF src sts pos N).term i ≠ .atEnd .more →
+    ∃ out : FirstOut × Nat, (match out.1 with | .oof => False | _ => True) ∧
+      ∃ F, ∀ fuel n, F ≤ fuel → L + 1 ≤ n → firstOf src fuel key n sts pos = out := by
+  intro L
+  induction L with
+  | zero =>
+    intro sts pos i hpos hlen href
+    have hitems : (denoteF src sts pos N).items = [] := List.eq_nil_of_length_eq_zero hlen
+    have hans : (denoteF src sts pos N).answers 1 = true := by
+      rw [hitems] at href
+      simp only [firstRef] at href
+      rcases hm : (denoteF src sts pos N).term.isMore with _ | _
+      · exact not_more_answers hm 1
+      · rw [isMore_eq hm] at href; exact absurd rfl href
+    obtain ⟨r, sts1, p1, hr, hp1, ⟨F1, hF1⟩, hle, hB, hA⟩ := pullFrom_stable src N sts pos hpos hans
+    dsimp only at hF1
+    cases r with
+    | item v =>
+      have := hA N hp1
+      simp only at this
+      rw [this] at hitems; simp [Tr.cons] at hitems
+    | eof =>
+      refine ⟨(.default, p1), trivial, F1, fun fuel n hf hn => ?_⟩
+      obtain ⟨n', rfl⟩ : ∃ n', n = n' + 1 := ⟨n - 1, by omega⟩
+      simp only [firstOf]; rw [hF1 fuel hf]
+    | err e =>
+      refine ⟨(.raised e, p1), trivial, F1, fun fuel n hf hn => ?_⟩
+      obtain ⟨n', rfl⟩ : ∃ n', n = n' + 1 := ⟨n - 1, by omega⟩
+      simp only [firstOf]; rw [hF1 fuel hf]
+    | oof => exact absurd rfl hr
+  | succ L ih =>
+    intro sts pos i hpos hlen href
+    have hans : (denoteF src sts pos N).answers 1 = true := by simp [Tr.answers, hlen]
+    obtain ⟨r, sts1, p1, hr, hp1, ⟨F1, hF1⟩, hle, hB, hA⟩ := pullFrom_stable src N sts pos hpos hans
+    dsimp only at hF1
+    cases r with
+    | item v =>
+      have hA' := hA N hp1
+      simp only at hA'
+      cases hk : key v with
+      | error e =>
+        refine ⟨(.raised e, p1), trivial, F1, fun fuel n hf hn => ?_⟩
+        obtain ⟨n', rfl⟩ : ∃ n', n = n' + 1 := ⟨n - 1, by omega⟩
+        simp only [firstOf]; rw [hF1 fuel hf]; simp [hk]
+      | ok y =>
+        by_cases ht : y.truthy = true
+        · refine ⟨(.found v, p1), trivial, F1, fun fuel n hf hn => ?_⟩
+          obtain ⟨n', rfl⟩ : ∃ n', n = n' + 1 := ⟨n - 1, by omega⟩
+          simp only [firstOf]; rw [hF1 fuel hf]; simp [hk, ht]
+        · have hlen' : (denoteF src sts1 p1 N).items.length = L := by
+            rw [hA'] at hlen; simpa [Tr.cons] using hlen
+          have href' : firstRef key (denoteF src sts1 p1 N).items (denoteF src sts1 p1 N).term (i + 1) ≠ .atEnd .more := by
+            rw [hA'] at href; simpa [Tr.cons, firstRef, hk, ht] using href
+          obtain ⟨out, hout, F2, hF2⟩ := ih sts1 p1 (i + 1) hp1 hlen' href'
+          refine ⟨out, hout, max F1 F2, fun fuel n hf hn => ?_⟩
+          obtain ⟨n', rfl⟩ : ∃ n', n = n' + 1 := ⟨n - 1, by omega⟩
+          simp only [firstOf]
+          rw [hF1 fuel (Nat.le_trans (Nat.le_max_left ..) hf)]
+          simp only [hk, ht, Bool.false_eq_true, ↓reduceIte]
+          exact hF2 fuel n' (Nat.le_trans (Nat.le_max_right ..) hf) (by omega)
+    | eof =>
+      refine ⟨(.default, p1), trivial, F1, fun fuel n hf hn => ?_⟩
+      obtain ⟨n', rfl⟩ : ∃ n', n = n' + 1 := ⟨n - 1, by omega⟩
+      simp only [firstOf]; rw [hF1 fuel hf]
+    | err e =>
+      refine ⟨(.raised e, p1), trivial, F1, fun fuel n hf hn => ?_⟩
+      obtain ⟨n', rfl⟩ : ∃ n', n = n' + 1 := ⟨n - 1, by omega⟩
+      simp only [firstOf]; rw [hF1 fuel hf]
+    | oof => exact absurd rfl hr
+
+/-- how the outcome of `first` relates to the reference on a trace -/
+def FirstMatches (key : Fn) (d : Tr) (o : FirstOut) (c : Nat) : Prop :=
+  match o with
+  | .found v => firstRef key d.items d.term 0 = .found v c
+  | .raised e => firstRef key d.items d.term 0 = .keyRaised e c ∨ firstRef key d.items d.term 0 = .atEnd (.err e)
+  | .default => firstRef key d.items d.term 0 = .atEnd .eof
+  | .oof => False
+
+/-- what a `first(key)` run establishes -/
+structure FirstSpec (kinds : List Kind) (src : Src) (key : Fn) (o : FirstOut) (pulls : Nat) : Prop where
+  result : (∃ c, (∀ N, pulls ≤ N → FirstMatches key (det kinds src N) o c) ∧
+      ∀ m, m < pulls → PrimeNeeded src [] kinds m ∨ (det kinds src m).answers c = false) ∨
+    (∃ e, o = .raised e ∧ (∀ N, pulls ≤ N → PrimeRaised src [] kinds e N) ∧
+      ∀ m, m < pulls → PrimeNeeded src [] kinds m)
+  bounded : ∀ bound, SrcBound src bound → pulls ≤ bound ∧
+    ((∃ e, o = .raised e ∧ PrimeRaised src [] kinds e bound ∧ pulls ≤ primeNeed kinds src bound) ∨
+      (∃ c, FirstMatches key (det kinds src bound) o c ∧
+        pulls ≤ needFrom kinds src bound c (primeNeed kinds src bound) ∧
+        pulls ≤ needEndFrom kinds src bound (primeNeed kinds src bound)))
+
+theorem runFirst_spec (src : Src) (fuel : Nat) (kinds : List Kind) (key : Fn)
+    (hfin : (match (runFirst kinds src fuel key).1 with | .oof => False | _ => True)) :
+    FirstSpec kinds src key (runFirst kinds src fuel key).1 (runFirst kinds src fuel key).2 := by
+  have hc : ∀ bound, _ := fun bound => construct_sound src fuel bound kinds [] [] 0 0
+    (fun N _ => by rw [denoteF_nil_zero]; rfl)
+  unfold runFirst at hfin ⊢
+  revert hc hfin
+  cases construct src fuel kinds [] 0 with
+  | ok sts pos =>
+    intro hfin hc
+    simp only at hfin hc ⊢
+    obtain ⟨_, hprime, hden, _⟩ := hc 0
+    simp only [List.nil_append] at hden
+    obtain ⟨hle, c, hB, hA⟩ := firstOf_sound src fuel key fuel sts pos 0
+    have hBabs : ∀ m, pos ≤ m → m < (firstOf src fuel key fuel sts pos).2 →
+        (det kinds src m).answers c = false := fun m hm hm' => by rw [← hden m hm]; exact hB m hm hm'
+    have hmatch : ∀ N, (firstOf src fuel key fuel sts pos).2 ≤ N →
+        FirstMatches key (det kinds src N) (firstOf src fuel key fuel sts pos).1 c := by
+      intro N hN
+      have h := hA N hN
+      rw [hden N (Nat.le_trans hle hN)] at h
+      revert h hfin
+      unfold FirstMatches
+      cases (firstOf src fuel key fuel sts pos).1 with
+      | found v => intro _ h; simpa using h
+      | default => intro _ h; exact h
+      | raised e => intro _ h; simpa using h
+      | oof => intro h _; exact h
+    refine ⟨Or.inl ⟨c, hmatch, ?_⟩, ?_⟩
+    · intro m hm
+      rcases Nat.lt_or_ge m pos with hlt | hge
+      · exact Or.inl (hprime m (Nat.zero_le _) hlt)
+      · exact Or.inr (hBabs m hge hm)
+    · intro bound hb
+      obtain ⟨_, _, _, hbd⟩ := hc bound
+      obtain ⟨hpb, hscan⟩ := hbd hb (Nat.le_refl _) (Nat.zero_le _)
+      have hmb : ∀ m, pos ≤ m → m < (firstOf src fuel key fuel sts pos).2 → m < bound :=
+        fun m hm hm' => hb _ (pipeTr_isMore kinds _ (answers_false_isMore (hBabs m hm hm')))
+      have hpl : (firstOf src fuel key fuel sts pos).2 ≤ bound := by
+        rcases Nat.eq_or_lt_of_le hle with heq | hlt
+        · omega
+        · have := hmb ((firstOf src fuel key fuel sts pos).2 - 1) (by omega) (by omega); omega
+      refine ⟨hpl, Or.inr ⟨c, hmatch bound hpl, ?_, ?_⟩⟩
+      · exact pulls_le_need _ bound _ pos _ hscan hmb hBabs hle
+      · exact pulls_le_need _ bound _ pos _ hscan hmb
+          (fun m hm hm' => by simp [answers_false_isMore (hBabs m hm hm')]) hle
+  | err e pos =>
+    intro _ hc
+    simp only at hc ⊢
+    obtain ⟨_, hprime, hraised, _⟩ := hc 0
+    refine ⟨Or.inr ⟨e, rfl, hraised, fun m hm => hprime m (Nat.zero_le _) hm⟩, ?_⟩
+    intro bound hb
+    obtain ⟨_, _, hr, hbd⟩ := hc bound
+    obtain ⟨hpb, hscan⟩ := hbd hb (Nat.le_refl _) (Nat.zero_le _)
+    exact ⟨hpb, Or.inl ⟨e, rfl, hr bound hpb, hscan⟩⟩
+  | oof => intro hfin _; exact absurd hfin id
+
+theorem FirstObs.beq_refl (o : FirstObs) : (o == o) = true := by
+  cases o <;> simp [BEq.beq, FirstObs.beq]
+  exact V.beq_refl _
+
+theorem checkFirst_of_spec (kinds : List Kind) (xs : List V) (tail : Option Err) (key : Fn)
+    (o : FirstOut) (pulls : Nat) (h : FirstSpec kinds (.fin xs tail) key o pulls) :
+    checkFirst kinds (.fin xs tail) key (firstObsOf o) pulls = true := by
+  unfold checkFirst
+  simp only [srcLen]
+  obtain ⟨hpl, hres⟩ := h.bounded xs.length (srcBound_fin xs tail)
+  rcases hres with ⟨e, hfe, hraised, hpn⟩ | ⟨c, hm, hneed, hend⟩
+  · apply Bool.or_eq_true_iff.mpr; right
+    subst hfe
+    simp [firstObsOf, hpn, primeRaised_mem hraised]
+  · apply Bool.or_eq_true_iff.mpr; left
+    unfold FirstMatches at hm
+    cases o with
+    | found v => simp only at hm; rw [hm]; simp [firstObsOf, FirstObs.beq_refl, hneed]
+    | default => simp only at hm; rw [hm]; simp [firstObsOf, FirstObs.beq_refl, hend]
+    | raised e =>
+      simp only at hm
+      rcases hm with hm | hm
+      · rw [hm]; simp [firstObsOf, hneed]
+      · rw [hm]; simp [firstObsOf, FirstObs.beq_refl, hend]
+    | oof => exact absurd hm id
+
+theorem runFirst_terminates (src : Src) (N : Nat) (kinds : List Kind) (key : Fn)
+    (hw : ∀ k ∈ kinds, k.wf = true) (hpa : PrimeAnswered src N [] kinds)
+    (href : firstRef key (det kinds src N).items (det kinds src N).term 0 ≠ .atEnd .more) :
+    ∃ F, ∀ fuel, F ≤ fuel → (match (runFirst kinds src fuel key).1 with | .oof => False | _ => True) := by
+  obtain ⟨b, hb, ⟨F1, hF1⟩, hposN⟩ := construct_terminates src N kinds [] [] 0 hw
+    (fun M _ => by rw [denoteF_nil_zero]; rfl) (Nat.zero_le _) hpa
+  dsimp only at hF1
+  have hcs := construct_sound src F1 0 kinds [] [] 0 0 (fun M _ => by rw [denoteF_nil_zero]; rfl)
+  rw [hF1 F1 (Nat.le_refl _)] at hcs
+  cases b with
+  | ok sts pos =>
+    obtain ⟨_, _, hden, _⟩ := hcs
+    have hp := hposN sts pos rfl
+    have href' : firstRef key (denoteF src sts pos N).items (denoteF src sts pos N).term 0 ≠ .atEnd .more := by
+      rw [hden N hp]; simpa using href
+    obtain ⟨out, hout, F2, hF2⟩ := firstOf_terminates src N key _ sts pos 0 hp rfl href'
+    refine ⟨max (max F1 F2) ((denoteF src sts pos N).items.length + 1), fun fuel hf => ?_⟩
+    unfold runFirst
+    rw [hF1 fuel (by omega)]
+    simp only
+    rw [hF2 fuel fuel (by omega) (by omega)]
+    exact hout
+  | err e pos =>
+    refine ⟨F1, fun fuel hf => ?_⟩
+    unfold runFirst
+    rw [hF1 fuel hf]
+    trivial
+  | oof => simp [Built.isOof] at hb
+
 end Glom.C17
